@@ -689,7 +689,7 @@ pub fn run_main(args: &[String]) {
         if verbose {
             println!("SCRIPT {}", idx);
         }
-        let lines = run_script_lines(dump.clone(), probes, ops, 3000);
+        let lines = run_script_lines(dump.clone(), probes, ops, 30000);
         let mut h = Hasher::new();
         for l in &lines {
             h.line(l);
@@ -706,36 +706,36 @@ pub fn run_main(args: &[String]) {
 // ------------------------------------------------------------------------------------------------ generator
 const ITEM_NAMES: &[&str] = &["a", "b", "c", "a1", "a2", "a10", "a1b", "a01", "p", "p1", "p10", "x_1", "Sig", "Sig_1", "a_1", "a_2"];
 const BAD_ITEM_NAMES: &[&str] = &["", "1a", "a b", "a/b", "\u{fc}x", "a-b"];
-const ELEMENT_KINDS: &[&str] = &[
+pub(crate) const ELEMENT_KINDS: &[&str] = &[
     "SYSTEM", "I-SIGNAL", "SYSTEM-SIGNAL", "COMPU-METHOD", "SW-BASE-TYPE", "ECUC-MODULE-CONFIGURATION-VALUES",
     "APPLICATION-SW-COMPONENT-TYPE", "I-SIGNAL-I-PDU", "ECU-INSTANCE", "UNIT", "DATA-CONSTR", "SENDER-RECEIVER-INTERFACE",
     "IMPLEMENTATION-DATA-TYPE", "COMPOSITION-SW-COMPONENT-TYPE", "CAN-CLUSTER",
 ];
 const STRINGS: &[&str] = &["", "x", "hello world", " lead", "trail ", "a&b", "<tag>", "q\"uote'", "1.0.0", "0x1F", "123", "true", "/a/b", "/a", "a/b", "/p1/a", "/p10", "AUTOSAR_00050", "\u{e4}\u{20ac}"];
-const VERSIONS: &[u32] = &[0x100000, 0x40000, 0x1, 0x800, 0x80000];
+pub(crate) const VERSIONS: &[u32] = &[0x100000, 0x40000, 0x1, 0x800, 0x80000];
 
 type Sink = std::sync::Arc<std::sync::Mutex<(Vec<String>, BTreeSet<String>)>>;
 
-struct Gen<'a> {
-    enable: Vec<String>,
+pub(crate) struct Gen<'a> {
+    pub(crate) enable: Vec<String>,
     sink: Sink,
-    rng: SplitMix64,
-    ex: Exec<'a>,
-    ops: Vec<Op>,
-    paths: BTreeSet<String>,
+    pub(crate) rng: SplitMix64,
+    pub(crate) ex: Exec<'a>,
+    pub(crate) ops: Vec<Op>,
+    pub(crate) paths: BTreeSet<String>,
     stats: HashMap<String, (u64, u64)>,
     hang_budget: u32,
 }
 
 impl<'a> Gen<'a> {
-    fn pickh(&mut self) -> Option<usize> {
+    pub(crate) fn pickh(&mut self) -> Option<usize> {
         if self.ex.handles.is_empty() {
             None
         } else {
             Some(self.rng.below(self.ex.handles.len() as u64) as usize)
         }
     }
-    fn pick_where(&mut self, f: impl Fn(&Element) -> bool) -> Option<usize> {
+    pub(crate) fn pick_where(&mut self, f: impl Fn(&Element) -> bool) -> Option<usize> {
         let c: Vec<usize> = (0..self.ex.handles.len()).filter(|k| f(&self.ex.handles[*k])).collect();
         if c.is_empty() {
             None
@@ -743,14 +743,14 @@ impl<'a> Gen<'a> {
             Some(c[self.rng.below(c.len() as u64) as usize])
         }
     }
-    fn item_name(&mut self) -> Vec<u8> {
+    pub(crate) fn item_name(&mut self) -> Vec<u8> {
         if self.rng.below(12) == 0 {
             self.rng.pick(BAD_ITEM_NAMES).as_bytes().to_vec()
         } else {
             self.rng.pick(ITEM_NAMES).as_bytes().to_vec()
         }
     }
-    fn value_for(&mut self, spec: Option<&CharacterDataSpec>) -> Val {
+    pub(crate) fn value_for(&mut self, spec: Option<&CharacterDataSpec>) -> Val {
         let mismatch = self.rng.below(8) == 0;
         match (spec, mismatch) {
             (Some(CharacterDataSpec::Enum { items }), false) => {
@@ -804,7 +804,7 @@ impl<'a> Gen<'a> {
         }
     }
 
-    fn push(&mut self, op: Op) -> String {
+    pub(crate) fn push(&mut self, op: Op) -> String {
         let kind = op.line().split_whitespace().nth(1).unwrap().to_string();
         {
             // recorded BEFORE the call: if the library blocks forever the script still ends with this operation
@@ -1167,7 +1167,13 @@ pub fn gen_main(args: &[String]) {
                 if k % 4 != 0 {
                     prologue(&mut g, k as u64);
                 }
-                let extra = if k % 4 != 0 { 12 } else { 0 };
+                let mut extra = if k % 4 != 0 { 12 } else { 0 };
+                if g.enable.iter().any(|e| e == "dup") && k % 2 == 1 {
+                    // C13: copy / duplicate scenarios (harness/src/copy.rs)
+                    let before = g.ops.len();
+                    let _ = crate::util::guard(std::panic::AssertUnwindSafe(|| crate::copy::scenario(&mut g, k as u64)));
+                    extra += g.ops.len() - before;
+                }
                 let mut tries = 0;
                 while g.ops.len() < len + extra && tries < 400 {
                     tries += 1;
@@ -1186,7 +1192,7 @@ pub fn gen_main(args: &[String]) {
                 let _ = tx.send(g.stats.clone());
             })
             .unwrap();
-        let stats = match rx.recv_timeout(std::time::Duration::from_millis(8000)) {
+        let stats = match rx.recv_timeout(std::time::Duration::from_millis(60000)) {
             Ok(st) => st,
             Err(_) => {
                 hung += 1;
